@@ -446,11 +446,31 @@ def clause6_predicates_and_path(ctx, P, cg):
         raise AnalysisBroken("no store to password_file_name found")
 
 
+def clause7_salt_method(ctx, P):
+    """the new hash uses the method of the stored one; a stored hash of a method that is not in the table is refused (falling
+    back to the first table entry - DES, which looks at 8 characters only - would keep the old password valid)"""
+    g = P.fn("auth_file.c:get_salt_from_passwd")
+    bad = None
+    n = 0
+    for v in Q.path_views(ctx, P, g, loop_iters=1):
+        dollar = v.has_atom(lambda a, p: a[0] == "cmp" and a[3] == ("const", 36) and a[2][0] == "load" and Q._poleq(a, p))
+        matched = v.has_atom(lambda a, p: a[0] == "cmp" and Q.is_call_to(a[2], ("strncmp", "strcmp", "memcmp")) and a[3] == ("const", 0) and Q._poleq(a, p))
+        if dollar and not matched:
+            n += 1
+            rc = v.ret_const()
+            if rc is None or rc >= 0:
+                bad = v
+    ctx.ob("C20.4 R-GATE", g, "unknown-hash-method-is-refused", bad is None and n > 0,
+           "get_salt_from_passwd() succeeds on a path where the stored hash names a method ('$...$') that matched no table entry: the new "
+           "password is then hashed with another method than the old one", witness=bad.witness() if bad else None)
+
+
 def run(ctx):
     for cfg in ctx.configs(["default"] if ctx.tier == "quick" else None):
         P, cg = cfg.P, cfg.cg
         clause1_auth(ctx, P)
         clause6_predicates_and_path(ctx, P, cg)
+        clause7_salt_method(ctx, P)
         clause2_atomic(ctx, P, cg)
         clause3_write(ctx, P, cg)
         clause4_effective(ctx, P, cg)
